@@ -1,12 +1,14 @@
 import Driver.Proto
 import SsqlVerif.Model.Tumbling
+import SsqlVerif.Model.Sliding
 import SsqlVerif.Spec.Window
 set_option autoImplicit false
 open Proto
 
 /-! Shared driver for the event-time window properties (C01, C02, C08): replays the op lines
-on the tumbling model and evaluates `WinSpec.holds` on the implementation's observables. -/
+on a window model and evaluates `WinSpec.holds` on the implementation's observables. -/
 namespace DrvWin
+open Tumbling (Emission Row)
 
 def cfgInt (c : Case) (k : String) (d : Int) : Int :=
   match c.cfg.find? (fun l => l.head? == some k) with
@@ -18,8 +20,20 @@ def cfgStr (c : Case) (k : String) (d : String) : String :=
   | some [_, v] => v
   | _ => d
 
-def emLine (e : Tumbling.Emission) : List String :=
+def emLine (e : Emission) : List String :=
   (if e.kind == .late then "lemit" else "emit") :: toString e.start :: toString e.stop :: e.rows.map (fun r => toString r.id)
+
+/-- the executable interface of a window model -/
+structure Machine (σ : Type) where
+  add : σ → Row → Int → σ × List Emission
+  pop : σ → σ
+  iter : σ → σ × List Emission
+  tick : σ → Int → σ
+  busy : σ → Bool
+  chanEmpty : σ → Bool
+  tagAdd : σ → Row → Int → List String
+  ptAdd : σ → Row → σ
+  ptTick : σ → σ × List Emission
 
 structure Gap where
   k : Nat
@@ -33,35 +47,36 @@ def parseGap (g : String) : Option Gap :=
     some { k := k, id := id, ts := if ts == "none" then none else parseInt ts }
   | _ => none
 
-def addRow (s : Tumbling.TW) (id : Nat) (ts : Option Int) (now : Int) : Tumbling.TW × List Tumbling.Emission :=
+variable {σ : Type}
+
+def addRow (m : Machine σ) (s : σ) (id : Nat) (ts : Option Int) (now : Int) : σ × List Emission :=
   match ts with
   | none => (s, [])
-  | some t => Tumbling.stepAdd s { id := id, ts := t } now
+  | some t => m.add s { id := id, ts := t } now
 
 /-- run the trigger loop for the already popped watermark; gap adds fire after the k-th emission -/
-partial def triggerLoop (s : Tumbling.TW) (gaps : List Gap) (now : Int) (k : Nat) (acc : List Tumbling.Emission) :
-    Tumbling.TW × List Tumbling.Emission × Nat :=
-  if s.trigW.isNone then (s, acc, k) else
-  let (s1, es) := Tumbling.stepIter s
+partial def triggerLoop [Inhabited σ] (m : Machine σ) (s : σ) (gaps : List Gap) (now : Int) (k : Nat) (acc : List Emission) :
+    σ × List Emission × Nat :=
+  if !m.busy s then (s, acc, k) else
+  let (s1, es) := m.iter s
   match es with
-  | [] => triggerLoop s1 gaps now k acc
+  | [] => triggerLoop m s1 gaps now k acc
   | e :: _ =>
-    -- emission number k: then the adds scheduled for its unlock gap (each may emit late updates)
-    let (s2, acc2, k2) := (gaps.filter (·.k == k)).foldl (fun (st : Tumbling.TW × List Tumbling.Emission × Nat) g =>
-        let (s', es') := addRow st.1 g.id g.ts now
+    let (s2, acc2, k2) := (gaps.filter (·.k == k)).foldl (fun (st : σ × List Emission × Nat) g =>
+        let (s', es') := addRow m st.1 g.id g.ts now
         (s', st.2.1 ++ es', st.2.2 + es'.length)) (s1, acc ++ [e], k + 1)
-    triggerLoop s2 gaps now k2 acc2
+    triggerLoop m s2 gaps now k2 acc2
 
-def deliver (s : Tumbling.TW) (gaps : List Gap) (now : Int) : Option (Tumbling.TW × List Tumbling.Emission) :=
-  if s.wm.chan.isEmpty then none else
-  let s1 := Tumbling.stepPop s
-  let (s2, es, _) := triggerLoop s1 gaps now 0 []
+def deliver [Inhabited σ] (m : Machine σ) (s : σ) (gaps : List Gap) (now : Int) : Option (σ × List Emission) :=
+  if m.chanEmpty s then none else
+  let s1 := m.pop s
+  let (s2, es, _) := triggerLoop m s1 gaps now 0 []
   some (s2, es)
 
-partial def drain (s : Tumbling.TW) (now : Int) (acc : List Tumbling.Emission) : Tumbling.TW × List Tumbling.Emission :=
-  match deliver s [] now with
+partial def drain [Inhabited σ] (m : Machine σ) (s : σ) (now : Int) (acc : List Emission) : σ × List Emission :=
+  match deliver m s [] now with
   | none => (s, acc)
-  | some (s', es) => drain s' now (acc ++ es)
+  | some (s', es) => drain m s' now (acc ++ es)
 
 /-- the implementation's obs lines of one op → spec events (arrivals of gap adds interleaved) -/
 def evsOfObs (obs : List (List String)) (gaps : List Gap) : List WinSpec.Ev := Id.run do
@@ -81,18 +96,14 @@ def evsOfObs (obs : List (List String)) (gaps : List Gap) : List WinSpec.Ev := I
     | _ => pure ()
   return out
 
-def run (c : Case) : CaseOut := Id.run do
-  let size := cfgInt c "size" 1000
-  let ooo := cfgInt c "ooo" 0
-  let late := cfgInt c "late" 0
-  let now := cfgInt c "now" 0
+def runWith [Inhabited σ] (m : Machine σ) (s0 : σ) (scfg : WinSpec.Cfg) (c : Case) : CaseOut := Id.run do
+  let now := scfg.now
   let mode := cfgStr c "mode" "et"
-  let mut s : Tumbling.TW := { size := size, lateness := late, wm := { maxOOO := ooo } }
+  let mut s := s0
   let mut obs : List (List (List String)) := []
   let mut evs : List WinSpec.Ev := []
   let mut tags : List String := []
   let mut flushed := false
-  let tag (ts : List String) (t : String) : List String := if ts.contains t then ts else t :: ts
   for (op, implObs) in c.ops do
     match op with
     | "add" :: id :: ts :: _ =>
@@ -100,57 +111,102 @@ def run (c : Case) : CaseOut := Id.run do
       let ts := if ts == "none" then none else parseInt ts
       if mode == "pt" then
         match ts with
-        | some t => s := Tumbling.ptAdd s { id := id, ts := t }
+        | some t => s := m.ptAdd s { id := id, ts := t }
         | none => pure ()
         obs := obs ++ [[]]
         evs := evs ++ [WinSpec.Ev.arr id ts]
       else
         match ts with
-        | some t =>
-          let r : Tumbling.Row := { id := id, ts := t }
-          match Tumbling.fate s r now with
-          | .keep => tags := tag tags (if Tumbling.lateNow s r now then "late-kept-in-current" else
-                      (if (match s.cur with | some c => decide (t < c) | none => false) then "ontime-before-current-slot" else "ontime"))
-          | .lateUpdate _ => tags := tag tags "late-update"
-          | .drop => tags := tag tags "late-drop"
-          if Wm.tooFar s.wm t now then tags := tag tags "far-future-guard"
-          if s.wm.chan.length ≥ s.wm.cap then tags := tag tags "watermark-channel-full"
-        | none => tags := tag tags "no-timestamp"
-        let (s', es) := addRow s id ts now
+        | some t => for t' in m.tagAdd s { id := id, ts := t } now do
+                      unless tags.contains t' do tags := t' :: tags
+        | none => unless tags.contains "no-timestamp" do tags := "no-timestamp" :: tags
+        let (s', es) := addRow m s id ts now
         s := s'
         obs := obs ++ [es.map emLine]
         evs := evs ++ [WinSpec.Ev.arr id ts] ++ evsOfObs implObs []
       flushed := false
     | "deliver" :: gs =>
       let gaps := gs.filterMap parseGap
-      match deliver s gaps now with
+      match deliver m s gaps now with
       | none => obs := obs ++ [[["idle"]]]
       | some (s', es) =>
         s := s'
         obs := obs ++ [es.map emLine]
-        if es.isEmpty then tags := tag tags "deliver-nothing-fires" else tags := tag tags "deliver-fires"
+        let t' := if es.isEmpty then "deliver-nothing-fires" else "deliver-fires"
+        unless tags.contains t' do tags := t' :: tags
       evs := evs ++ evsOfObs implObs gaps
-      -- gap adds whose emission index never occurred were not executed
     | ["drain"] =>
-      let (s', es) := drain s now []
+      let (s', es) := drain m s now []
       s := s'
       obs := obs ++ [es.map emLine]
       evs := evs ++ evsOfObs implObs []
       flushed := true
     | ["tick"] =>
-      s := { s with wm := Wm.tick s.wm false now }
+      s := m.tick s now
       obs := obs ++ [[]]
     | ["pttick"] =>
-      let (s', es) := Tumbling.ptTick s
+      let (s', es) := m.ptTick s
       s := s'
       obs := obs ++ [es.map emLine]
       evs := evs ++ evsOfObs implObs []
     | _ => obs := obs ++ [[["bad-op"]]]
-  let scfg : WinSpec.Cfg := { size := size, slide := size, ooo := ooo, lateness := late, now := now }
   let spec := if mode == "pt" then "ok" else
     match WinSpec.holds scfg evs flushed with
     | none => "ok"
     | some e => "fail:" ++ e
   return { obs := obs, spec := spec, tags := tags }
+
+instance : Inhabited Tumbling.TW := ⟨Tumbling.init 1 0 0⟩
+instance : Inhabited Sliding.SW := ⟨Sliding.init 1 1 0⟩
+
+def tumblingMachine : Machine Tumbling.TW where
+  add := Tumbling.stepAdd
+  pop := Tumbling.stepPop
+  iter := Tumbling.stepIter
+  tick := fun s now => { s with wm := Wm.tick s.wm false now }
+  busy := fun s => s.trigW.isSome
+  chanEmpty := fun s => s.wm.chan.isEmpty
+  ptAdd := Tumbling.ptAdd
+  ptTick := Tumbling.ptTick
+  tagAdd := fun s r now =>
+    (match Tumbling.fate s r now with
+     | .keep => if Tumbling.lateNow s r now then "late-kept-in-current" else
+                  (if (match s.cur with | some c => decide (r.ts < c) | none => false) then "ontime-before-current-slot" else "ontime")
+     | .lateUpdate _ => "late-update"
+     | .drop => "late-drop") ::
+    ((if Wm.tooFar s.wm r.ts now then ["far-future-guard"] else []) ++
+     (if s.wm.chan.length ≥ s.wm.cap then ["watermark-channel-full"] else []))
+
+def slidingMachine : Machine Sliding.SW where
+  add := fun s r now => (Sliding.stepAdd s r now, [])
+  pop := Sliding.stepPop
+  iter := Sliding.stepIter
+  tick := fun s now => { s with wm := Wm.tick s.wm false now }
+  busy := fun s => s.trigW.isSome
+  chanEmpty := fun s => s.wm.chan.isEmpty
+  ptAdd := fun s _ => s
+  ptTick := fun s => (s, [])
+  tagAdd := fun s r now =>
+    (if Sliding.kept s r now then
+       (if Sliding.lateNow s r now then "late-kept-in-current" else
+         (if (match s.cur with | some c => decide (r.ts < c) | none => false) then
+            (if s.advanced then "ontime-in-gap-before-current-slot" else "ontime-before-current-slot") else "ontime"))
+     else "late-drop") ::
+    ((if Wm.tooFar s.wm r.ts now then ["far-future-guard"] else []) ++
+     (if s.wm.chan.length ≥ s.wm.cap then ["watermark-channel-full"] else []))
+
+def run (c : Case) : CaseOut :=
+  let size := cfgInt c "size" 1000
+  let ooo := cfgInt c "ooo" 0
+  let late := cfgInt c "late" 0
+  let now := cfgInt c "now" 0
+  match cfgStr c "kind" "tumbling" with
+  | "sliding" =>
+    let slide := cfgInt c "slide" 500
+    runWith slidingMachine (Sliding.init size slide ooo)
+      { size := size, slide := slide, ooo := ooo, lateness := late, now := now } c
+  | _ =>
+    runWith tumblingMachine (Tumbling.init size ooo late)
+      { size := size, slide := size, ooo := ooo, lateness := late, now := now } c
 
 end DrvWin
